@@ -2,6 +2,7 @@
 import math
 
 import numpy
+from unittest import mock
 import scipy.stats
 from hypothesis import strategies as st
 
@@ -164,7 +165,17 @@ def check_case(ctx, case):
         if any(v - m != 0 for v in d):
             wres = {}
             for tag, f1, f2, dd, mm in (("AB", fa, fb, d, m), ("BA", fb, fa, [-v for v in d], -m)):
-                o = call(P.w_test, f1, f2, cat())
+                # soft spy on the ranking routine: for near-tied data the ranks depend on the last bits of log(), so the oracle takes
+                # the ranks the library itself used and checks that z and p are the Wilcoxon statistic OF THOSE RANKS
+                seen_ranks = []
+                real_rankdata = scipy.stats.rankdata
+
+                def rank_spy(a, *aa, **kk):
+                    r_ = real_rankdata(a, *aa, **kk)
+                    seen_ranks.append((numpy.array(a, dtype=float).copy(), numpy.array(r_, dtype=float).copy()))
+                    return r_
+                with mock.patch.object(scipy.stats, "rankdata", rank_spy):
+                    o = call(P.w_test, f1, f2, cat())
                 if not o.ok:
                     ctx.unexpected(o, "w_test")
                     continue
@@ -183,6 +194,30 @@ def check_case(ctx, case):
                 near = near or any(b[0] - a[0] < 1e-9 * b[0] and a[1] != b[1] and not mirror(a[1], b[1]) for a, b in zip(ad, ad[1:]))
                 if any(a[1] != b[1] and a[0] == b[0] and mirror(a[1], b[1]) for a, b in zip(ad, ad[1:])):
                     ctx.count("W_compared_with_mirrored_ties")
+                near_null = any(0 < abs(v - mm) < 1e-9 * (abs(v) + abs(mm) + 1e-300) for v in dd)
+                if near and not near_null and len(seen_ranks) == 1 and len(seen_ranks[0][1]) == len(dz) and all(v - mm != 0 for v in dd):
+                    # near-tied |d|: which of them tie is the implementation's business, but the statistic must belong to the ranks
+                    # it used (signs are unambiguous here, no difference is near the null median)
+                    vals, rk = seen_ranks[0]
+                    sg = [1 if v - mm > 0 else -1 for v in dd]
+                    n_ = len(rk)
+                    order_ok = all(not (abs(dd[i] - mm) < abs(dd[j] - mm) * (1 - 1e-9) and rk[i] >= rk[j]) for i in range(n_) for j in range(n_)) if n_ <= 60 else True
+                    if not order_ok:
+                        ctx.violation("W:ranks_inconsistent_with_differences", {"order": tag, "n": n_})
+                    rp_ = math.fsum(float(rk[i]) for i in range(n_) if sg[i] > 0)
+                    rm_ = math.fsum(float(rk[i]) for i in range(n_) if sg[i] < 0)
+                    mult = {}
+                    for x in rk.tolist():
+                        mult[x] = mult.get(x, 0) + 1
+                    var_ = (n_ * (n_ + 1) * (2 * n_ + 1) - 0.5 * sum(t * (t * t - 1) for t in mult.values())) / 24.0
+                    if var_ > 0:
+                        z_ = (min(rp_, rm_) - n_ * (n_ + 1) * 0.25) / math.sqrt(var_)
+                        p_ = 2 * float(scipy.stats.norm.sf(abs(z_)))
+                        ctx.count("W_near_tie_compared_through_the_library_ranks")
+                        if not rel(gz, z_, 1e-9, 1e-9) or abs(gp - p_) > 1e-9:
+                            ctx.violation("W:statistic_does_not_belong_to_the_ranks_used", {"order": tag, "got": [gz, gp], "want": [z_, p_], "n": n_,
+                                                                                         "tie_groups": sorted(t for t in mult.values() if t > 1)})
+                    continue
                 if near:
                     # ranks (ties or not) then depend on the last bits of log(): not decidable by an independent oracle
                     ctx.count("skipped:W_near_tie_or_near_null_median")
